@@ -12,7 +12,7 @@ from props import _design
 TITLE = "exhausted IterateSATGen = valid set"
 LEVEL = "proof"
 DOMAINS = ['Design', 'DocSem', 'T2']
-EXTRA_PROPERTY_FILES = ["T2", "T2c"]   # theorems about Design/DocSem.v, the Gallina rendering of the documented semantics
+EXTRA_PROPERTY_FILES = ["T2", "T2c", "T2e"]   # theorems about Design/DocSem.v, the Gallina rendering of the documented semantics
 STRAT = "IterateSATGen"
 
 
